@@ -18,7 +18,11 @@ impl Parser {
     /// Parses Lua code into a [`Block`].
     pub fn parse(&self, code: &str) -> Result<Block, ParserError> {
         let full_moon_parse_timer = Timer::now();
-        let parse_result = full_moon::parse_fallible(code, LuaVersion::luau()).into_result();
+        // the parsing library panics on some malformed inputs: report those as errors too
+        let parse_result = std::panic::catch_unwind(|| {
+            full_moon::parse_fallible(code, LuaVersion::luau()).into_result()
+        })
+        .map_err(|_| ParserError::panicked())?;
         log::trace!(
             "full-moon parsing done in {}",
             full_moon_parse_timer.duration_label()
@@ -55,6 +59,7 @@ impl Parser {
 enum ParserErrorKind {
     Parsing(Vec<full_moon::Error>),
     Converting(ConvertError),
+    Panicked,
 }
 
 /// The error type that can occur when parsing code.
@@ -75,6 +80,12 @@ impl ParserError {
             kind: ParserErrorKind::Converting(err).into(),
         }
     }
+
+    fn panicked() -> Self {
+        Self {
+            kind: ParserErrorKind::Panicked.into(),
+        }
+    }
 }
 
 impl fmt::Display for ParserError {
@@ -87,6 +98,9 @@ impl fmt::Display for ParserError {
                 Ok(())
             }
             ParserErrorKind::Converting(err) => write!(f, "{}", err),
+            ParserErrorKind::Panicked => {
+                write!(f, "the parser failed unexpectedly on this input (invalid syntax)")
+            }
         }
     }
 }
